@@ -83,3 +83,10 @@ def run(ctx):
             seen.add(key)
             ctx.fail("C19.bounded.driver[%s]" % key[:80], "%s with %s" % (p, x["cfg"]), x, True)
     ctx.samples.append({"driver_runs": len(res), "entries_checked": sum(x["entries"] for x in res)})
+    fr = D.file_runs(ctx.tier, ctx.seed)
+    badf = [x for x in fr if x["problems"]]
+    ctx.add_bounded("phyclone.run.run from input files (loader, emission grids and trace writer on the path)", "5 mutations x 2 samples covering minor copy number 0 / > 0, both densities, clustered / unclustered, 1-2 chains",
+                    len(fr), len(fr), not badf)
+    for x in badf[:6]:
+        for p_ in x["problems"][:2]:
+            ctx.fail("C19.bounded.file-run[%s]" % p_[:80], "%s with %s" % (p_, x["cfg"]), x, True)
